@@ -213,6 +213,53 @@ def check(run):
             q = list(vals)
             req.append(wb.to_wire(q))
             pend.append((wb, q, vals, case))
+        # ---- a missing sheet of an EXISTING linked workbook: the rest of that workbook (its names, its other sheets) stays intact ----
+        import openpyxl
+        from openpyxl.workbook.defined_name import DefinedName
+        for k in range(10 if quick else 200):
+            linked = rnd.choice(['linked.xlsx', 'L.XLSX', 'Data2.xlsx', 'LINK.xlsx'])
+            missing = rnd.choice(['Zzz', 'Aaa', 'Nope', 'ZZ_TOP', 'a1'])
+            b1, b2 = rnd.choice([3, 5, 10]), rnd.choice([4, 7])
+            second_fault = rnd.random() < 0.5
+            case = {'stream': 'missing-sheet-of-linked-book', 'linked': linked, 'missing_sheet': missing, 'values': [b1, b2], 'second_missing_book': second_fault}
+            run.count(1, json.dumps(case, sort_keys=True), True, 'missing-sheet-of-linked-book')
+            dd = os.path.join(tmp, 'l%d' % k)
+            os.makedirs(dd)
+            cwd = os.getcwd()
+            try:
+                os.chdir(dd)
+                lb = openpyxl.Workbook(); ws = lb.active; ws.title = 'Data'
+                ws['B1'], ws['B2'], ws['A1'] = b1, b2, '=FACTOR*2'
+                dn = DefinedName('FACTOR', attr_text='Data!$B$1+Data!$B$2')
+                try:
+                    lb.defined_names['FACTOR'] = dn
+                except TypeError:
+                    lb.defined_names.append(dn)
+                lb.save(linked)
+                mb = openpyxl.Workbook(); ws = mb.active; ws.title = 'S'
+                ws['A1'] = "='[%s]%s'!A1" % (linked, missing)
+                ws['A2'] = "='[%s]Data'!A1" % linked
+                ws['A3'] = '=IFERROR(A1,"caught")'
+                ws['A4'] = '=ISERROR(A1)'
+                if second_fault:
+                    ws['A5'] = "='[nofile7.xlsx]S'!A1"
+                mb.save('main.xlsx')
+                m = bookrun.ExcelModel().loads('main.xlsx').finish()
+                sol = m.calculate()
+                def g(key):
+                    v = sol.get(key)
+                    return bookrun.wire_impl(np.asarray(v.value, object)[0, 0]) if v is not None else 'missing'
+                got = {c: g("'[main.xlsx]S'!%s" % c) for c in ('A1', 'A2', 'A3', 'A4')}
+                exp = {'A1': 'x#REF!', 'A2': bookgen.wire_val(float((b1 + b2) * 2)), 'A3': 't' + bookgen.enc('caught'), 'A4': 'b1'}
+                if got != exp:
+                    bad = [c for c in exp if got[c] != exp[c]][0]
+                    run.violation('missing sheet %r of the existing workbook %s: cell %s is %s, expected %s' % (
+                        missing, linked, bad, bookrun.show(got[bad]) if got[bad] != 'missing' else 'missing', bookrun.show(exp[bad])), dict(case, got=got))
+            except Exception as ex:
+                run.violation('missing sheet of a linked workbook: raised %s: %s' % (type(ex).__name__, str(ex)[:100]), case)
+            finally:
+                os.chdir(cwd)
+                shutil.rmtree(dd, ignore_errors=True)
     finally:
         shutil.rmtree(tmp, ignore_errors=True)
     answers = model(req)
